@@ -18,6 +18,7 @@
       of the correspondence covers them.
 -/
 import PyGqlModel.Props.C06_overlap_memo_complete
+import PyGqlModel.Props.C06_head
 namespace PyGql.Props.C06
 open PyGql PyGql.Validate PyGql.Validate.Spec
 
@@ -105,5 +106,14 @@ theorem dupDoc_tableAcyclic : TableAcyclic dupDoc := by
 example : OverlapSide oSchema dupDoc :=
   (overlapSide_iff_tableAcyclic oSchema dupDoc (by rw [← wfIdsB_iff]; decide)).mpr
     ⟨by rw [dupDoc_table]; decide, dupDoc_tableAcyclic⟩
+
+/-- every hypothesis of `overlap_memo_neutral_tableAcyclic` on the document with a duplicate fragment name -/
+example : (overlapMemoRun oSchema Fixes.all dupDoc).1 = 0 ↔ Silent oSchema Fixes.all .overlappingFieldsCanBeMerged dupDoc :=
+  overlap_memo_neutral_tableAcyclic oSchema Fixes.all rfl dupDoc (by unfold NoCrash; decide +kernel)
+    (parentsAgree_of_rules oSchema dupDoc (schemaOutputs_of_check oSchema (by decide))
+      ((rule_scalar_leafs_iff oSchema Fixes.all dupDoc).mp (by unfold Silent; decide +kernel))
+      ((rule_fragments_on_composite_types_iff oSchema Fixes.all dupDoc).mp (by unfold Silent; decide +kernel))
+      ((noMetaSubsB_iff dupDoc).mp (by decide)) ((wfIdsB_iff dupDoc).mp (by decide)))
+    ((wfIdsB_iff dupDoc).mp (by decide)) (by rw [dupDoc_table]; decide) dupDoc_tableAcyclic
 
 end PyGql.Props.C06
